@@ -80,6 +80,8 @@ type TimeVal struct {
 func absZero(t types.Type) (Value, bool) {
 	if n, ok := t.(*types.Named); ok && n.Obj().Pkg() != nil {
 		switch n.Obj().Pkg().Path() + "." + n.Obj().Name() {
+		case "github.com/google/uuid.UUID":
+			return uuidVal{""}, true
 		case "time.Time":
 			return TimeVal{Sec: int64(-62135596800), Nsec: int64(0), Zero: true}, true
 		}
